@@ -348,7 +348,9 @@ impl Model {
     }
 
     pub fn entity_value(&self, doc: usize, name: &str) -> Option<String> {
-        if let Some((_, v)) = self.docs[doc].entities.iter().find(|(n, _)| n == name) {
+        // declarations live in the DOCTYPE node: they are gone when it is no longer a child of the document
+        let dt_attached = self.nodes[self.docs[doc].root].children.iter().any(|c| self.nodes[*c].kind == Kind::DocType);
+        if let Some((_, v)) = self.docs[doc].entities.iter().find(|(n, _)| n == name).filter(|_| dt_attached) {
             return Some(v.clone());
         }
         match name {
